@@ -211,6 +211,8 @@ fn make_stream(ep: &UDPEndpoint, tsi: u64, seed: u64, nobj: u32) -> Stream {
 thread_local! {
     /// annotation of the last executed operation: ` #<key>=<n>` per session = number of writer callbacks it made
     static LAST_ANNOT: RefCell<String> = RefCell::new(String::new());
+    /// observation of the `cbs` line that may follow the last executed operation
+    static LAST_CB: RefCell<String> = RefCell::new(String::new());
     static STREAMS: RefCell<HashMap<String, Rc<Stream>>> = RefCell::new(HashMap::new());
 }
 
@@ -495,8 +497,9 @@ impl TsiEngine {
         bits
     }
 
-    /// `cb=<key>,<key>,...` (the (endpoint, tsi) carried by every writer callback of the call, sorted) and the
-    /// annotation handed to the model (how many callbacks per session)
+    /// records `cb=<key>,<key>,...` (the (endpoint, tsi) carried by every writer callback of the call, sorted) - the
+    /// observation of the `cbs` line that follows - and the annotation handed to the model with that line (how many
+    /// callbacks per session)
     fn cb_obs(obs: String, cbs: &[Cb]) -> String {
         if cbs.is_empty() {
             return obs;
@@ -509,7 +512,8 @@ impl TsiEngine {
         }
         let annot: String = cnt.iter().map(|(k, n)| format!(" #{}={}", k, n)).collect();
         LAST_ANNOT.with(|a| *a.borrow_mut() = annot);
-        format!("{} cb={}", obs, ks.join(","))
+        LAST_CB.with(|a| *a.borrow_mut() = format!("ok cb={}", ks.join(",")));
+        obs
     }
 
     fn events_obs(pre: &str, evs: &[(bool, String)], sort: bool) -> String {
@@ -868,6 +872,12 @@ impl Engine for TsiEngine {
         if t.len() < 2 || t[0] != "tsi" {
             return "bad-op".into();
         }
+        if t[1] == "cbs" && t.len() == 2 {
+            // which (endpoint, tsi) the writer callbacks of the previous call carried
+            let r = LAST_CB.with(|a| std::mem::take(&mut *a.borrow_mut()));
+            return if r.is_empty() { "ok".into() } else { r };
+        }
+        LAST_CB.with(|a| a.borrow_mut().clear());
         match (t[1], t.len()) {
             ("probes", _) => {
                 let mut v = Vec::new();
@@ -1273,16 +1283,14 @@ fn enumerate_fseq(ctx: &mut Ctx, eng: &mut dyn Engine, tag: &str, alpha: &[Strin
     }
 }
 
-/// like `Ctx::step`, but the operation line written for the model carries the implementation's report of how many
-/// writer callbacks each session made during the call (the real Receiver is opaque to the model driver)
+/// `Ctx::step` (every call into the real code goes through it: per-op watchdog), followed - when the call made writer
+/// callbacks - by a `cbs` line: its annotation tells the model how many callbacks each session made (the real Receiver
+/// is opaque to the model driver), its observation is which (endpoint, tsi) each of them carried
 fn astep(ctx: &mut Ctx, eng: &mut dyn Engine, op: &str) -> String {
-    let mut o = Oracle::default();
-    let obs = eng.exec(op, &mut o);
+    let obs = ctx.step(eng, op);
     let annot = LAST_ANNOT.with(|a| a.borrow().clone());
-    let line = format!("{}{}", op, annot);
-    ctx.op(&line, &obs);
-    for (c, d) in o.fails {
-        ctx.oracle_fail(&c, &format!("{} :: op `{}` -> `{}`", d, line, obs));
+    if !annot.is_empty() {
+        ctx.step(eng, &format!("tsi cbs{}", annot));
     }
     obs
 }
